@@ -153,7 +153,8 @@ func (op *c12Op) isPost() bool {
 func (op *c12Op) temporal() bool { return op.Kind == "t-add-chain" || op.Kind == "t-add-pre-chain" }
 
 type c12World struct {
-	pool    bool // spec C12lock: deterministic LIFO pools (lockstep build, runtime quiet)
+	ls      *kernel.Lockstep // spec C12lock: statement-level interleaving of the calls sharing the client
+	pool    bool             // spec C12lock: deterministic LIFO pools (lockstep build, runtime quiet)
 	s       *kernel.Sim
 	prof    c12Profile
 	pki     *pki
@@ -228,27 +229,28 @@ func endpointOf(path string) string {
 
 func newC12() kernel.World { return &c12World{} }
 
-// newC12Lock: spec C12lock - the C12 workload and oracle on the lockstep build of jsonclient / client, with the
-// runtime quiet (nobody parks at locks or statement boundaries: C12 is about what the peer sends, not about
-// interleavings). What the build contributes here: every sync.Pool of the two packages is a plain LIFO free list,
-// so an object put back by one call is handed to the very next one - whatever a call leaves behind in a pooled
-// buffer or structure meets the next answer deterministically - and map ranges run in key order.
+// newC12Lock: spec C12lock - the C12 workload and oracle on the lockstep build of jsonclient / client: the 1-3 calls
+// that share the client are interleaved by the driver between any two statements and at every lock (what one call
+// keeps in the shared client between two of its own statements can be met by another call's answer), and every
+// sync.Pool of the two packages is a plain LIFO free list, so an object put back by one call is handed to the very
+// next one. Map ranges run in key order.
 func newC12Lock() kernel.World { return &c12World{pool: true} }
 
 func c12LockSpecs(specs []kernel.Spec) []kernel.Spec {
 	if !lockrt.Enabled {
 		return specs
 	}
-	return append(specs, kernel.Spec{Prop: "C12lock", Mk: newC12Lock, Limits: kernel.Limits{MaxSteps: 200, SettleSteps: 120}})
+	return append(specs, kernel.Spec{Prop: "C12lock", Mk: newC12Lock, Limits: kernel.Limits{MaxSteps: 900, SettleSteps: 400}})
 }
 
 func (w *c12World) Init(s *kernel.Sim) {
 	w.s = s
 	t := s.T
 	if w.pool && lockrt.Enabled && !s.Timed {
-		ls := kernel.NewLockstep(s, false)
-		ls.Quiet()
-		lockrt.Install(ls.RT)
+		// statement-level interleaving of the calls that share the client (C12's oracle has no timing clause, so a call
+		// held by the driver needs no special treatment), plus LIFO pools
+		w.ls = kernel.NewLockstep(s, true)
+		lockrt.Install(w.ls.RT)
 	} else {
 		lockrt.Install(nil)
 	}
@@ -492,7 +494,12 @@ func (w *c12World) launch(op *c12Op) {
 	if op.trunc != "" {
 		s.Probe("trunc." + op.trunc)
 	}
-	s.Go(func() { w.run(op) })
+	s.Go(func() {
+		if w.ls != nil {
+			w.ls.RT.SetName(op.Party) // the call's goroutine and whatever it spawns inside client / jsonclient descend from it
+		}
+		w.run(op)
+	})
 }
 
 func asn1Chain(raw [][]byte) []ct.ASN1Cert {
@@ -685,7 +692,22 @@ func (w *c12World) active() int {
 
 func (w *c12World) Options(s *kernel.Sim) []kernel.Option {
 	var opts []kernel.Option
-	parked := s.ParkedCalls()
+	all := s.ParkedCalls()
+	var parked []*kernel.Parked // calls waiting at the transport
+	heldRoots := map[string]bool{}
+	for _, p := range all {
+		if kernel.IsLockSeam(p.Name) {
+			heldRoots[kernel.RootOf(p.Party)] = true
+		} else {
+			parked = append(parked, p)
+		}
+	}
+	if w.ls != nil {
+		if !s.FaultsOn() {
+			w.ls.Quiet() // settle phase: nobody is held at locks or statement boundaries any more
+		}
+		opts = append(opts, w.ls.Options(all)...)
+	}
 	for _, p := range parked {
 		p := p
 		opts = append(opts, kernel.Option{Key: "answer " + p.Key + " -> correct", Weight: w.prof.OkW, Apply: func() {
@@ -726,7 +748,7 @@ func (w *c12World) Options(s *kernel.Sim) []kernel.Option {
 				waiting = true
 			}
 		}
-		if waiting {
+		if waiting && !heldRoots[op.Party] { // (not while one of its goroutines is held by the driver: select ties on release)
 			op := op
 			opts = append(opts, kernel.Option{Key: "cancel " + op.Party, Weight: 1, Apply: func() {
 				op.cancelled = true
@@ -744,7 +766,7 @@ func (w *c12World) Options(s *kernel.Sim) []kernel.Option {
 			}})
 		}
 	}
-	if w.active() > 0 {
+	if w.active() > 0 && len(heldRoots) == 0 { // the clock stands still while a goroutine is held at a lock or statement boundary (a deadline passing under a held goroutine is a select tie on release)
 		cw := []int{1, 1, 2, 2, 1, 0}
 		if len(parked) > 0 {
 			cw = []int{1, 1, 1, 0, 0, 0}
@@ -784,6 +806,9 @@ func faultFamily(kind string) string {
 }
 
 func (w *c12World) AfterStep(s *kernel.Sim) {
+	if w.ls != nil && w.ls.Check() {
+		return
+	}
 	for _, op := range w.ops {
 		if op.harvested {
 			continue
